@@ -731,7 +731,9 @@ def _material():
 
 
 def _targets(max_n, min_n=3):
-    one = st.one_of(st.floats(0.001, 1.0), st.floats(0.001, 0.08), st.floats(0.1, 0.6))
+    # the last alternative: a pore essentially at the geometric minimum width (a few 1e-5 nm above it)
+    one = st.one_of(st.floats(0.001, 1.0), st.floats(0.001, 0.08), st.floats(0.1, 0.6), st.floats(0.001, 1.0),
+                    st.floats(0.001, 0.08), st.floats(0.1, 0.6), st.sampled_from([2e-6, 5e-6, 1e-5, 2e-5]))
     return st.integers(min_n, max_n).flatmap(lambda n: st.tuples(
         st.lists(one, min_size=n, max_size=n), st.lists(_logu(1e-3, 10.0), min_size=n, max_size=n)))
 
@@ -739,7 +741,9 @@ def _targets(max_n, min_n=3):
 def _base(max_n=7, models=rh.MODELS, geometries=rh.GEOMETRIES, min_n=3):
     return st.builds(
         lambda model, geo, T, mat, ads, ul, kappa, zero, dip, ko: {
-            "model": model, "geometry": geo, "T": T, "material": mat, "adsorbate": ads, "u": ul[0], "dload": ul[1],
+            "model": model, "geometry": geo, "T": T, "material": mat, "adsorbate": ads,
+            # (slit: the potential is deepest at the minimum width; in curved pores that width lies on the repulsive wall)
+            "u": ul[0] if geo == "slit" else [max(v, 0.001) for v in ul[0]], "dload": ul[1],
             "plateau": kappa, "zero_first": zero, "dip": dip, "key_order": ko},
         st.sampled_from(list(models)), st.sampled_from(list(geometries)), st.floats(70.0, 300.0), _material(),
         _adsorbate(), _targets(max_n, min_n), _logu(0.05, 20.0), st.sampled_from([False] * 7 + [True]),
